@@ -10,6 +10,7 @@
    121 a transaction already reported safe is reported safe again
    127 the restarted node's delay check notifies about a transaction that is confirmed in the chain (a stale copy of
        the unconfirmed set came back: it is tracked again although its confirmation was delivered)
+   128 the restarted node's tracked set does not carry the first-seen times that were saved
    153 its later confirmation is not an update carrying the proof
    171 the stored copy of a delivered transaction cannot be fetched back by txid
    122 / 124 / 126 the trusted flag / first-seen time did not survive: after the restart a transaction is reported
@@ -23,8 +24,8 @@ From V.proofs Require Import TxFlow_Proofs.
 
 Theorem C11_txflow :
   forall (delay : Z) (ops : list op),
-    flow_valid delay ops = true -> never_objects delay [101; 102; 103; 113; 121; 122; 123; 124; 126; 127; 153; 171] ops.
-Proof. exact (txflow_never_objects_any [101; 102; 103; 113; 121; 122; 123; 124; 126; 127; 153; 171]). Qed.
+    flow_valid delay ops = true -> never_objects delay [101; 102; 103; 113; 121; 122; 123; 124; 126; 127; 128; 153; 171] ops.
+Proof. exact (txflow_never_objects_any [101; 102; 103; 113; 121; 122; 123; 124; 126; 127; 128; 153; 171]). Qed.
 Print Assumptions C11_txflow.
 
 (* Non-vacuity: a valid history with a three-way conflict, a safe report, a confirmation that
